@@ -178,7 +178,7 @@ func TestVerifBlobRealCodec(t *testing.T) {
 	if vTier() == "thorough" {
 		css = append(css, 4*MiB)
 	}
-	for i := 0; i < vScale(8, 60); i++ {
+	for i := 0; i < vScale(10, 60); i++ {
 		rec.Case()
 		cs := css[rng.Intn(len(css))]
 		n := 1 + rng.Intn(3*cs+10)
@@ -191,14 +191,37 @@ func TestVerifBlobRealCodec(t *testing.T) {
 		kind := []string{"random", "zero", "text"}[rng.Intn(3)]
 		data := vContent(rng, kind, n)
 		lvl := levels[rng.Intn(len(levels))]
-		enc, _ := zstd.NewWriter(nil, zstd.WithEncoderLevel(lvl))
+		// frame style: one-shot frames (single segment), or a streaming encoder whose frames declare a
+		// window of its own choosing (any standard encoder setting is conformant), with or without checksum
+		style := []string{"oneshot", "stream", "stream-w16M", "stream-w32M", "stream-crc"}[i%5]
 		var frames [][]byte
-		for _, ch := range vChunks(data, cs) {
-			frames = append(frames, enc.EncodeAll(ch, nil))
+		if style == "oneshot" {
+			enc, _ := zstd.NewWriter(nil, zstd.WithEncoderLevel(lvl))
+			for _, ch := range vChunks(data, cs) {
+				frames = append(frames, enc.EncodeAll(ch, nil))
+			}
+			_ = enc.Close()
+		} else {
+			opts := []zstd.EOption{zstd.WithEncoderLevel(lvl), zstd.WithEncoderCRC(style == "stream-crc")}
+			if style == "stream-w16M" {
+				opts = append(opts, zstd.WithWindowSize(16*MiB))
+			} else if style == "stream-w32M" {
+				opts = append(opts, zstd.WithWindowSize(32*MiB))
+			}
+			for _, ch := range vChunks(data, cs) {
+				var buf bytes.Buffer
+				enc, err := zstd.NewWriter(&buf, opts...)
+				if err != nil {
+					t.Fatal(err)
+				}
+				_, _ = enc.Write(ch)
+				_ = enc.Close()
+				frames = append(frames, buf.Bytes())
+			}
 		}
-		_ = enc.Close()
 		file := vEncodeFile(int64(n), 1, uint32(cs), frames)
-		rec.Op(fmt.Sprintf("# own-encoder cs=%d n=%d level=%v kind=%s", cs, n, lvl, kind), fmt.Sprintf("# own-encoder cs=%d n=%d level=%v kind=%s", cs, n, lvl, kind))
+		rec.Op(fmt.Sprintf("# own-encoder cs=%d n=%d level=%v kind=%s style=%s", cs, n, lvl, kind, style), fmt.Sprintf("# own-encoder cs=%d n=%d level=%v kind=%s style=%s", cs, n, lvl, kind, style))
+		rec.Count("own.style." + style)
 		for rname, rimpl := range impls {
 			for _, off := range vOffsets(rng, n, cs) {
 				if off >= n {
@@ -211,7 +234,7 @@ func TestVerifBlobRealCodec(t *testing.T) {
 				}
 			}
 		}
-		rec.Distinct(fmt.Sprintf("own:%d:%d:%v", cs, n, lvl))
+		rec.Distinct(fmt.Sprintf("own:%d:%d:%v:%s", cs, n, lvl, style))
 	}
 
 	// legacy (.v1, raw) files served as zstd
@@ -241,5 +264,5 @@ func TestVerifBlobRealCodec(t *testing.T) {
 		}
 		rec.Distinct(fmt.Sprintf("legacy:%d:%d", n, off))
 	}
-	rec.Set("rule", "real codecs go+cgo: WriteAndClose at block/chunk-edge sizes x content kinds, independent format reader on the result, all reader implementations at edge offsets raw+zstd; files from the harness's own encoder (chunk 4 KiB..4 MiB, 3 encoder levels); legacy raw files as zstd; distinct by (writer, content kind, size)")
+	rec.Set("rule", "real codecs go+cgo: WriteAndClose at block/chunk-edge sizes x content kinds, independent format reader on the result, all reader implementations at edge offsets raw+zstd; files from the harness's own encoder (chunk 4 KiB..4 MiB, 3 encoder levels, one-shot and streaming frames with windows up to 32 MiB, with and without checksum); legacy raw files as zstd; distinct by (writer, content kind, size)")
 }
